@@ -209,4 +209,117 @@ mut("acyc: rule reads the attribute it computes", ["R-ACYC"],
       "        self.power = (self.power_per_storage_capacity * self.storage_capacity + self.power).set_label(f\"Power of {self.name}\")")],
     ["Storage.update_power", "self.power"])
 
+
+# ------------------------------------------------------------------------------------------------ operator layer
+mut("oprec: EQ.__rsub__ records its operands in the wrong order", ["R-OPREC"],
+    [(EO, 'return ExplainableQuantity(other.value - self.value, "", other, self, "-")',
+      'return ExplainableQuantity(other.value - self.value, "", self, other, "-")')],
+    ["ExplainableQuantity.__rsub__"])
+mut("oprec: EQ.__truediv__ records a product", ["R-OPREC"],
+    [(EO, 'return ExplainableQuantity(self.value / other.value, "", self, other, "/")',
+      'return ExplainableQuantity(self.value / other.value, "", self, other, "*")')],
+    ["ExplainableQuantity.__truediv__"])
+mut("oprec: EHQ.__sub__ computes a sum", ["R-OPREC"],
+    [(EO, 'return ExplainableHourlyQuantities(self.value - other.value, "", self, other, "-")',
+      'return ExplainableHourlyQuantities(self.value + other.value, "", self, other, "-")')],
+    ["ExplainableHourlyQuantities.__sub__"])
+twin("oprec: EHQ.__add__ inlines its local", ["R-OPREC", "R-COMM", "R-FILL"],
+     [(EO, '''            df_sum = self.value.add(other.value, fill_value=0 * self.unit)
+            return ExplainableHourlyQuantities(df_sum, "", self, other, "+")''',
+       '''            return ExplainableHourlyQuantities(self.value.add(other.value, fill_value=0 * self.unit), "", self, other, "+")''')])
+mut("oppar: np_compared_with forgets the compared series as parent", ["R-OPPAR"],
+    [(EO, '''            left_parent=self,
+            right_parent=right_parent,
+            operator=f"{comparator} compared with"''', '''            left_parent=self,
+            operator=f"{comparator} compared with"''')],
+    ["np_compared_with"])
+mut("oppar: EHQ.max returns a parentless quantity", ["R-OPPAR"],
+    [(EO, 'return ExplainableQuantity(self.value["value"].max(), left_parent=self, operator="max")',
+      'return ExplainableQuantity(self.value["value"].max(), "max")')],
+    ["ExplainableHourlyQuantities.max"])
+mut("oppar: shift forgets the duration", ["R-OPPAR"],
+    [(EO, '''left_parent=self, right_parent=shift_duration,
+            operator=f"shifted by")''', '''left_parent=self,
+            operator=f"shifted by")''')],
+    ["return_shifted_hourly_quantities"])
+mut("comm: quantity times empty returns the quantity", ["R-COMM"],
+    [(EO, '''        elif isinstance(other, EmptyExplainableObject):
+            return EmptyExplainableObject(left_parent=self, right_parent=other, operator="*")
+        elif isinstance(other, ExplainableQuantity):
+            return ExplainableQuantity(self.value * other.value, "", self, other, "*")''',
+      '''        elif isinstance(other, EmptyExplainableObject):
+            return self
+        elif isinstance(other, ExplainableQuantity):
+            return ExplainableQuantity(self.value * other.value, "", self, other, "*")''')],
+    ["identity", "EQ"])
+mut("comm: empty plus hourly raises", ["R-COMM"],
+    [(EO, '''        if isinstance(other, ExplainableObject):
+            return other.__add__(self)
+        elif other == 0:
+            return EmptyExplainableObject(left_parent=self, operator="+ 0")''',
+      '''        if isinstance(other, ExplainableQuantity):
+            return other.__add__(self)
+        elif other == 0:
+            return EmptyExplainableObject(left_parent=self, operator="+ 0")''')],
+    ["EMPTY", "EHQ"])
+twin("comm: dispatch branches of EQ.__mul__ reordered", ["R-COMM", "R-OPREC"],
+     [(EO, '''        elif isinstance(other, ExplainableQuantity):
+            return ExplainableQuantity(self.value * other.value, "", self, other, "*")
+        elif isinstance(other, ExplainableHourlyQuantities):
+            return other.__mul__(self)
+        else:
+            raise ValueError(f"Can only make operation with another ExplainableQuantity, not with {type(other)}")
+
+    def __truediv__''', '''        elif isinstance(other, ExplainableHourlyQuantities):
+            return other.__mul__(self)
+        elif isinstance(other, ExplainableQuantity):
+            return ExplainableQuantity(self.value * other.value, "", self, other, "*")
+        else:
+            raise ValueError(f"Can only make operation with another ExplainableQuantity, not with {type(other)}")
+
+    def __truediv__''')])
+mut("pure: addition converts its right operand in place", ["R-PURE"],
+    [(EO, '''            df_sum = self.value.add(other.value, fill_value=0 * self.unit)''',
+      '''            other.value["value"] = other.value["value"].pint.to(self.unit)
+            df_sum = self.value.add(other.value, fill_value=0 * self.unit)''')],
+    ["ExplainableHourlyQuantities.__add__", "other.value"])
+mut("fill: hourly product without fill_value", ["R-FILL"],
+    [(EO, 'self.value.mul(other.value, fill_value=0)', 'self.value.mul(other.value)')], ["__mul__"])
+mut("fill: hourly sum as a bare +", ["R-FILL"],
+    [(EO, "            df_sum = self.value.add(other.value, fill_value=0 * self.unit)",
+      "            df_sum = self.value + other.value")], ["__add__"])
+mut("fill: occurrences in parallel summed with a bare +", ["R-FILL"],
+    [(CNO, '''            nb_avg_hourly_occurrences_in_parallel = nb_avg_hourly_occurrences_in_parallel.add(
+                hourly_occurrences_starts.value.shift(hour_shift, freq="h"), fill_value=0)''',
+      '''            nb_avg_hourly_occurrences_in_parallel = (
+                nb_avg_hourly_occurrences_in_parallel + hourly_occurrences_starts.value.shift(hour_shift, freq="h"))''')],
+    ["compute_nb_avg_hourly_occurrences"])
+mut("shift: positional shift in return_shifted_hourly_quantities", ["R-SHIFT"],
+    [(EO, 'self.value.shift(shift_duration_in_hours, freq="h")', 'self.value.shift(shift_duration_in_hours)')],
+    ["return_shifted_hourly_quantities"])
+mut("shift: positional shift of the storage dumps", ["R-SHIFT"],
+    [(ST, "periods=storage_duration_in_hours, freq='h')", "periods=storage_duration_in_hours)")],
+    ["automatic_storage_dumps_after_storage_duration"])
+mut("raw2: np_compared_with pairs series by position (revert of fix F2)", ["R-RAW2"],
+    [(EO, '''            self_values = self.value["value"].pint.magnitude.reindex(result_index, fill_value=0).to_numpy()
+            compared_values = compared_object.value["value"].pint.to(self.unit).pint.magnitude.reindex(
+                result_index, fill_value=0).to_numpy()''',
+      '''            self_values = self.value["value"].values.data.to_numpy()
+            compared_values = compared_object.value["value"].values.data.to_numpy()''')],
+    ["np_compared_with", "unaligned"])
+mut("raw2: compared series no longer converted to the receiver's unit", ["R-RAW2"],
+    [(EO, 'compared_object.value["value"].pint.to(self.unit).pint.magnitude.reindex(',
+      'compared_object.value["value"].pint.magnitude.reindex(')],
+    ["np_compared_with", "unit"])
+mut("summary: EHQ.ceil made in place", ["R-SUMMARY"],
+    [(EO, '''    def ceil(self):
+        return ExplainableHourlyQuantities(
+            pd.DataFrame(
+                {"value": pint_pandas.PintArray(np.ceil(self.value["value"].values.data), dtype=self.unit)},
+                index=self.value.index),
+            left_parent=self, operator="ceil")''', '''    def ceil(self):
+        self.value["value"] = pint_pandas.PintArray(np.ceil(self.value["value"].values.data), dtype=self.unit)
+        return self''')],
+    ["ExplainableHourlyQuantities.ceil"])
+
 VARIANTS = [v for v in V if v is not None]
